@@ -48,7 +48,11 @@ class G:
         n = self.rng.randint(1, 3)
         for _ in range(n):
             r = self.rng.random()
-            if r < 0.34:
+            if r < 0.29:
+                out.append(ind + self.p())
+            elif r < 0.34 and depth > 0 and not self.star:
+                out += self.jump_nest(ind, in_handler)
+            elif r < 0.34:
                 out.append(ind + self.p())
             elif r < 0.62 and depth > 0:
                 out += self.try_stmt(depth - 1, ind, in_loop, in_finally, in_handler, noret)
@@ -88,6 +92,58 @@ class G:
             if in_handler:
                 ch += ["raise", "raise"]
             out.append(ind + self.rng.choice(ch))
+        return out
+
+    def jump_nest(self, ind, in_handler):
+        """for/else or while/else whose break / continue sits under 1-3 levels of try/finally, try/except or with; the else
+        clause often ends in raise / return, so what runs after the loop is reachable only through the (deeply nested) break"""
+        rng = self.rng
+        v = "j%d" % self.pk
+        self.pk += 1
+        out = []
+        if rng.random() < 0.6:
+            out.append("%sfor %s in range(2):" % (ind, v))
+        else:
+            out.append("%s%s = 0" % (ind, v))
+            out.append("%swhile %s < 2:" % (ind, v))
+            out.append("%s    %s += 1" % (ind, v))
+        cur = ind + "    "
+        closers = []
+        for _ in range(rng.randint(1, 3)):
+            k = rng.random()
+            if k < 0.45:
+                out.append(cur + "try:")
+                closers.append((cur, "finally"))
+            elif k < 0.6:
+                out.append(cur + "try:")
+                closers.append((cur, "except"))
+            else:
+                out.append("%swith CM(%d, %s, False, False):" % (cur, self.pk + 70, rng.random() < 0.3))
+                closers.append((cur, None))
+            cur += "    "
+        out.append(cur + self.p())
+        jump = rng.choice(["break", "break", "continue"])
+        out.append("%sif a == %d: %s" % (cur, rng.randint(0, 2), jump) if rng.random() < 0.8 else cur + jump)
+        if not out[-1].strip().startswith(("break", "continue")):
+            out.append(cur + self.p())
+        for c, kind in reversed(closers):
+            if kind == "finally":
+                out.append(c + "finally:")
+                out.append(c + "    " + self.x())
+            elif kind == "except":
+                out.append(c + "except %s:" % rng.choice(["E1", "E2", "Exception"]))
+                out.append(c + "    " + self.x())
+        if rng.random() < 0.75:
+            out.append(ind + "else:")
+            out.append(ind + "    " + self.p())
+            k = rng.random()
+            if k < 0.35:
+                out.append("%s    raise %s(%d)" % (ind, rng.choice(["E1", "E2", "E3"]), self.pk))
+            elif k < 0.7:
+                out.append("%s    return %d" % (ind, self.pk))
+            elif k < 0.8 and in_handler:
+                out.append(ind + "    raise")
+        out.append(ind + self.p())
         return out
 
     def try_stmt(self, depth, ind, in_loop, in_finally, in_handler=False, noret=False):
